@@ -331,6 +331,56 @@ def _prim_check(seed: int, n: int) -> tuple[str | None, int]:
             f"(the source ties rest on it): {out[-200:]}"), len(cases)
 
 
+def _tx_check(ctx, repo: str, n: int, reader: bool, writer: bool) -> tuple[str | None, int, dict]:
+    """The translation cross-check (txcheck.py): the generated Gallina of the reader chain, evaluated by vm_compute, against the
+    real code of the tree under check on the same frames -- yields and exception classes, frame by frame."""
+    import shutil
+    import tempfile
+
+    import txcheck
+
+    tmpd = tempfile.mkdtemp(prefix="verif_tx_")
+    os.mkdir(f"{tmpd}/gen")
+    q = f"-Q model PJ.Model -Q tie PJ.Tie -Q {tmpd}/tie PJ.Tie -Q {tmpd}/gen PJ.Gen"
+    os.mkdir(f"{tmpd}/tie")
+    try:
+        for unit in ("lookup_enc", "lookup_dec", "options", "encode", "flows", "streams", "decode", "generic_sink", "generic_parse", "generic_serialize"):
+            p = subprocess.run([sys.executable, str(VERIF / "translate" / "py2v.py"), repo, unit], capture_output=True, text=True, timeout=120)
+            if p.returncode != 0:
+                return None, 0, {"note": "translator refuses the source (reported by the tie)"}
+            gen = {"lookup_enc": "LookupEncGen", "lookup_dec": "LookupDecGen", "options": "OptionsGen", "encode": "EncodeGen", "flows": "FlowsGen",
+                   "streams": "StreamsGen", "decode": "DecodeGen", "generic_sink": "GenericSinkGen", "generic_parse": "GenericParseGen",
+                   "generic_serialize": "GenericSerializeGen"}[unit]
+            (Path(tmpd) / "gen" / f"{gen}.v").write_text(p.stdout)
+            rc, out = sh(f"cd {VERIF}/coq && timeout 600 coqc {q} {tmpd}/gen/{gen}.v", timeout=700)
+            if rc != 0:
+                return None, 0, {"note": "the generated code does not compile (reported by the tie)"}
+        rc, out = sh(f"cd {VERIF}/coq && timeout 600 coqc {q} -o {tmpd}/tie/TxRun.vo tie/TxRun.v", timeout=700)
+        if rc != 0:
+            return f"translation cross-check: coq/tie/TxRun.v does not compile against the translation of this tree: {out[-300:]}", 0, {}
+        class _C:  # its own generator: the plan's sample does not depend on whether this check ran
+            rng = random.Random(ctx.seed * 104729 + 7)
+        cases, stats = txcheck.gen_cases(_C, n) if reader else ([], {})
+        if writer:
+            wcases, wstats = txcheck.gen_writer_cases(_C, n)
+            cases += wcases
+            stats["writer"] = wstats
+        os.mkdir(f"{tmpd}/cases")
+        (Path(tmpd) / "cases" / "TxCases.v").write_text(txcheck.coq_file(cases))
+        rc, out = sh(f"cd {VERIF}/coq && timeout 1500 coqc {q} -Q {tmpd}/cases PJ.Tx {tmpd}/cases/TxCases.v", timeout=1600)
+    finally:
+        shutil.rmtree(tmpd, ignore_errors=True)
+    if rc == 0:
+        return None, len(cases), stats
+    m = re.search(r"line (\d+)", out)
+    k = (int(m.group(1)) - 5) // 2 if m else -1
+    bad = cases[k][:400] + " ... = " + cases[k][cases[k].rfind("] = ["):][:400] if 0 <= k < len(cases) else "?"
+    return (f"translation cross-check: the translated source (generated Gallina of the reader chain -- options_from_frame, the generic adapters, "
+            f"Decoder.iter_rows -- or of the writer chain -- the options, TermEncoder with the generic dispatchers, the Stream classes and flows -- "
+            f"evaluated by vm_compute) and the real code of this tree differ on a stream -- the translator or coq/tie/PyPrims.v does not describe "
+            f"this source: {bad} :: {out[-200:]}"), len(cases), stats
+
+
 def source_ties(ctx, po: dict, pid: str) -> list[str]:
     """Regenerate and re-prove every tie whose source files the property is anchored in (in parallel).
     Returns the units that no longer check."""
@@ -349,6 +399,9 @@ def source_ties(ctx, po: dict, pid: str) -> list[str]:
     roots = [(u, t) for u, t in units if covered_by[u] is None]
     with ThreadPoolExecutor(max_workers=len(units) + 1) as ex:
         prim = ex.submit(_prim_check, ctx.seed, 60 if ctx.quick else 400)
+        tx_r = bool(set(names) & {"decode", "decoder", "generic_parse"})
+        tx_w = bool(set(names) & {"encode", "encode_stmt", "flows", "streams", "generic_serialize"})
+        tx = ex.submit(_tx_check, ctx, repo, 20 if ctx.quick else 120, tx_r, tx_w) if (tx_r or tx_w) else None
         root_res = dict(zip([u for u, _ in roots], ex.map(lambda ut: _one_tie(ut[0], ut[1], repo), roots)))
 
         def top(u):
@@ -367,6 +420,20 @@ def source_ties(ctx, po: dict, pid: str) -> list[str]:
         else:
             r0 = root_res[top(u)]
             results.append({"unit": u, "broken": None, "lines": r0["lines"], "cached": r0.get("cached", False)})
+    if tx is not None:
+        tx_bad, tx_n, tx_stats = tx.result()
+        if tx_bad:
+            po["broken"].append(tx_bad)
+        elif tx_n:
+            ctx.report.count("translation-cross-check/streams", tx_n)
+            w = tx_stats.get("writer")
+            ctx.report.notes.append("translation cross-check: the generated Gallina, evaluated by vm_compute, against the real code of this tree"
+                                    + (f"; reader chain (options_from_frame, generic adapters, Decoder.iter_rows): same yields and same exception classes on "
+                                       f"{tx_stats.get('valid', 0)} streams of the reference encoder as they are and {tx_stats.get('mutated', 0)} with one mutation "
+                                       f"({tx_stats.get('yields', 0)} objects yielded; exceptions compared: {tx_stats.get('exceptions', {})})" if "valid" in tx_stats else "")
+                                    + (f"; writer chain (options, TermEncoder with the generic dispatchers, TripleStream / QuadStream, flows): same frames, field for "
+                                       f"field, and same exception classes on {w['streams']} random configurations and statement lists ({w['frames']} frames; "
+                                       f"exceptions compared: {w['exceptions']})" if w else ""))
     if prim_bad:
         po["broken"].append(prim_bad)
     else:
